@@ -375,9 +375,9 @@ pub fn run(cfg: &Cfg) -> i32 {
         cfg,
         "exploration",
         "case = (self-describing program, binding configuration, seeded choices). Every external call site (inline, statement right after a line end, on a glued continuation, in a condition, with another external call as first argument, result used in 'x + 1', inside a string literal or choice text, under a labelled gather) prints a unique marker next to the value it received; the host's function returns a value computed from (name, arguments) and logs each call with the number of lines delivered so far; the Ink fallbacks compute a different known value. Configurations: bound look-ahead-safe, bound unsafe, unbound with fallbacks, unbound with fallbacks disallowed, one external without binding and without fallback whose only call site is under a labelled gather. Monitored: every delivered marker line and choice text shows the expected value (so arguments, their order and the use of the return value are right); unsafe: the host log equals, in order, exactly the calls whose results appear in delivered lines, each logged when precisely the lines before its own had been delivered, and a call from a string/choice text is refused with the documented error; safe: every executed call was made at least once and no later than its line (extra speculative calls are counted, not judged); fallbacks: no host call at all; the last two configurations: the first continue fails with an error naming the missing function. Non-trivial = >= 1 marker line checked; distinct by (program, configuration, choices).",
-        cfg.pick(5000, 50000),
+        cfg.pick(5000, 1000000),
     );
-    let nprog = cfg.get_u64("programs", cfg.pick(1200, 12000));
+    let nprog = cfg.get_u64("programs", cfg.pick(1200, 300000));
     let mut sampled = 0;
     for i in 0..nprog {
         if !cfg.mine(i) {
